@@ -1395,6 +1395,13 @@ closerLoop:
 			// Remove any delimiters between the opener and closer from the delimiter stack.
 			state.stack = deleteDelimiterStack(state.stack, openerIndex+1, currentPosition)
 			currentPosition = openerIndex + 1
+			// The search lower bounds are stack indices:
+			// keep them in step with the elements that were just removed.
+			for i := range openersBottom {
+				if openersBottom[i] > openerIndex+1 {
+					openersBottom[i] = openerIndex + 1
+				}
+			}
 
 			// If either the opening or the closing text nodes became empty,
 			// remove them from the tree.
@@ -1402,6 +1409,11 @@ closerLoop:
 				state.remove(opener)
 				state.stack = deleteDelimiterStack(state.stack, openerIndex, openerIndex+1)
 				currentPosition--
+				for i := range openersBottom {
+					if openersBottom[i] > openerIndex {
+						openersBottom[i]--
+					}
+				}
 			}
 			if closer.Span().Len() == 0 {
 				state.remove(closer)
@@ -1856,22 +1868,23 @@ type delimiterStackElement struct {
 	node  *Inline
 }
 
-const openersBottomCount = 9
+const openersBottomCount = 14
 
 func (elem delimiterStackElement) openersBottomIndex() int {
 	switch elem.typ {
-	case inlineDelimiterStar:
-		if elem.flags&openerFlag == 0 {
-			return elem.n % 3
-		} else {
-			return 3 + elem.n%3
+	case inlineDelimiterStar, inlineDelimiterUnderscore:
+		i := elem.n % 3
+		if elem.flags&openerFlag != 0 {
+			i += 3
 		}
-	case inlineDelimiterUnderscore:
-		return 6
+		if elem.typ == inlineDelimiterUnderscore {
+			i += 6
+		}
+		return i
 	case inlineDelimiterLink:
-		return 7
+		return 12
 	case inlineDelimiterImage:
-		return 8
+		return 13
 	default:
 		panic("unreachable")
 	}
